@@ -10,6 +10,8 @@
    hop <idx> <addr> <flags|none>      Circuit.add_hop on the idx-th circuit (dict order)
    close <idx> | rm <idx>             Circuit.close / circuits.pop
    cancreate <0|1>
+   fail <k|none>                      the (k+1)-th send_cell from now raises
+   tcinit <hexprefix>                 TunnelCommunity.__init__ on this endpoint
    rmreq <cid> | rmdone <cid>         remove_circuit: close at once / pop after remove_tunnel_delay
    listener <lid> <0|1|none>          add_listener
    notify <0|1>                       notify_listeners(from_tunnel)
@@ -37,6 +39,7 @@ def showEvent : Event → String
   | .data cid t d p => s!"data:{cid}:{showOptNat t}:{d}:{Proto.toHex p}"
   | .create h f m => s!"create:{h}:{showFlags f}:{showOptNat m}"
   | .drop o a p => s!"drop:{if o then "o" else "n"}:{a}:{Proto.toHex p}"
+  | .fail a p => s!"fail:{a}:{Proto.toHex p}"
   | .deliver l => s!"deliver:{l}"
 
 def showEvents (evs : List Event) (s : State) : String :=
@@ -59,7 +62,7 @@ def showCircuit (c : Circuit) : String :=
 
 def dump (s : State) : String :=
   let sets := (s.settings.map (fun kv => s!"{Proto.toHex kv.1}={b01 kv.2}")).mergeSort (fun a b => decide (a ≤ b))
-  s!"cap={s.cap} hops={s.hops} att={b01 s.attached} can={b01 s.comm.canCreate} "
+  s!"cap={s.cap} hops={s.hops} att={b01 s.attached} can={b01 s.comm.canCreate} fail={showOptNat s.comm.failAfter} "
     ++ "set=" ++ Proto.showStrList sets
     ++ " q=" ++ Proto.showStrList (s.queue.map (fun x => s!"{x.1}:{Proto.toHex x.2}"))
     ++ " circ=" ++ Proto.showStrList (s.comm.circuits.map showCircuit)
@@ -81,6 +84,10 @@ def parseOp (toks : List String) : Option Op :=
   | ["close", i] => do some (.close (← i.toNat?))
   | ["rm", i] => do some (.remove (← i.toNat?))
   | ["cancreate", b] => do some (.setCanCreate (← bool? b))
+  | ["fail", k] => do
+      let kk ← if k == "none" then some none else k.toNat?.map some
+      some (.setFail kk)
+  | ["tcinit", p] => do some (.attachCommunity (← Proto.ofHex? p))
   | ["rmreq", c] => do some (.removeRequest (← c.toNat?))
   | ["rmdone", c] => do some (.removeDone (← c.toNat?))
   | ["listener", l, a] => do
@@ -92,7 +99,7 @@ def parseOp (toks : List String) : Option Op :=
 def countEv (evs : List Event) : Nat × Nat × Nat × Nat :=
   evs.foldl (fun (r, d, c, x) e => match e with
     | .raw .. => (r + 1, d, c, x) | .data .. => (r, d + 1, c, x) | .create .. => (r, d, c + 1, x)
-    | .drop .. => (r, d, c, x + 1) | .deliver .. => (r, d, c, x)) (0, 0, 0, 0)
+    | .drop .. => (r, d, c, x + 1) | .fail .. => (r, d, c, x + 1) | .deliver .. => (r, d, c, x)) (0, 0, 0, 0)
 
 def burst (s : State) (n a : Nat) (pfx : Bytes) (base : Nat) : State × String :=
   let rec go (s : State) (i : Nat) (fuel : Nat) (acc : Nat × Nat × Nat × Nat) : State × (Nat × Nat × Nat × Nat) :=
